@@ -15,6 +15,10 @@ func scenarioC10(r *Run) {
 	if r.Gen.Chance("recvfault", 0.15) {
 		w.sEnd.FaultRecvAt[r.Gen.Int("recvfaultat", 12)] = fRecvErr
 	}
+	if r.Gen.Chance("sendfault", 0.2) {
+		w.sEnd.FaultSendAt[r.Gen.Int("sendfaultat", 10)] = []int{fSendErrLost, fSendErrAfter}[r.Gen.Int("sendfaultkind", 2)]
+	}
+	w.sEnd.CloseErr = r.Gen.Chance("closeerr", 0.1)
 	w.start()
 	if !w.drive(nil) {
 		return
